@@ -736,13 +736,14 @@ RecTensorM.__model_class__ = TensorM
 
 @register
 class TensorEagerSubsRename(Contract):
-    """Tensor.eager_subs, branch taken when some value is a Variable or a Slice: every input substituted by a Variable is
-    renamed IN PLACE (same position, same domain, data untouched), every input substituted by a Slice is renamed to the
-    slice's name, gets the slice's size, and the data is strided along exactly that dimension -- for every index
-    result.data[idx] == self.data[idx with start + step*i at sliced dims] -- and the remaining (non-renaming) pairs are
-    handed to a recursive call unchanged.
-    The clause is split by the known finding C04/rename-onto-existing-input: when a new name coincides with an input of
-    self that is not itself substituted away, two dimensions collapse onto one name instead of taking the diagonal.
+    """Tensor.eager_subs up to and including the renaming / slicing branch.  A Variable or Slice value is either applied
+    IN PLACE (the input keeps its position and data; it is renamed to the value's name; a Slice also gives it the slice's
+    size and strides the data along exactly that dimension: result.data[idx] == self.data[idx with start + step*i at
+    sliced dims]) or it is materialized (to an index tensor) and handed, with the Number pairs, to the recursive call /
+    the advanced-indexing path.  Simultaneous-substitution soundness of the in-place route is stated semantically, not by
+    copying the code's rule: the intermediate tensor's input names must be pairwise distinct, and no in-place target name
+    may coincide with an input that is still to be substituted or that stays -- so f(i='j'), f(i=0, j='i'),
+    f(j=Slice('i', ..)) and repeated targets cannot be in-place renames (they are diagonals).  No pair is lost.
     structure bound: <= 3 inputs, event rank <= 1."""
 
     props = ("C04", "C01")
@@ -752,9 +753,11 @@ class TensorEagerSubsRename(Contract):
     mutants = (
         ("slice applied to the wrong dimension", "slices[i] = v.slice", "slices[0] = v.slice"),
         ("sliced input keeps its old size", "                        d = v.inputs[v.name]\n", ""),
+        ("renaming onto another input's name done in place", "or (v.name != k and v.name in self.inputs)", "or False"),
+        ("repeated target names renamed in place", "name_counts[v.name] > 1", "False"),
     )
 
-    KINDS = ["-", "var:x", "var:y", "var:a", "var:b", "slice:x", "num"]
+    KINDS = ["-", "var:x", "var:y", "var:a", "var:b", "slice:x", "slice:a", "num"]
 
     def structures(self, tier):
         for n in (1, 2, 3):
@@ -766,9 +769,6 @@ class TensorEagerSubsRename(Contract):
                     continue  # renaming a name to itself
                 if tier == "quick" and n == 3 and sum(1 for k in ks if k != "-") > 2:
                     continue
-                tg = [k.split(":")[1] for k in ks if ":" in k]
-                if len(tg) != len(set(tg)):
-                    continue  # repeated target names go through materialize (diagonal): not this branch's renaming
                 for e in (0, 1):
                     yield "inputs=%s,subs=%s,event=%d" % (names, ",".join(ks), e), (names, ks, e)
 
@@ -776,7 +776,7 @@ class TensorEagerSubsRename(Contract):
         names, ks, e = st
         x, bs, es = mk_tensor(p, tuple(names), e)
         subs = []
-        ctx = Ctx(namespace=None, x=x, bs=bs, es=es, st=st, p=p, slices={})
+        ctx = Ctx(namespace=None, x=x, bs=bs, es=es, st=st, p=p, slices={}, ods=[])
         from .c_terms import VariableM, mk_slice_self
 
         for nm, k in zip(names, ks):
@@ -785,7 +785,7 @@ class TensorEagerSubsRename(Contract):
             if k.startswith("var:"):
                 subs.append((nm, VariableM(k[4:], x.inputs[nm])))
             elif k.startswith("slice:"):
-                s = mk_slice_self(p, k[6:])
+                s = mk_slice_self(p, k[6:], tag=nm)
                 p.assume(s.dtype == bs[nm])
                 ctx.slices[nm] = s
                 subs.append((nm, s))
@@ -800,40 +800,56 @@ class TensorEagerSubsRename(Contract):
         def to_funsor(v, dom=None):
             return v
 
-        ctx.namespace = dict(TENSOR_NS, Tensor=RecTensorM, Variable=VariableM, Slice=SliceM, Counter=Counter, to_funsor=to_funsor, enumerate=enumerate, any=core.sany, slice=slice, list=list)
-        x.materialize = lambda v: ("materialized", v)
+        class RecOD(OrderedDict):
+            def __init__(self, *a, **k):
+                super().__init__(*a, **k)
+                ctx.ods.append(self)
+
+        def materialize(v):
+            if isinstance(v, (VariableM, SliceM)):
+                return ("materialized", v)
+            # only the advanced-indexing path materializes other values: the renaming branch was not taken
+            raise core._Return(("advanced-indexing-path",))
+
+        ctx.namespace = dict(TENSOR_NS, Tensor=RecTensorM, Variable=VariableM, Slice=SliceM, Counter=Counter, to_funsor=to_funsor, enumerate=enumerate, any=core.sany, slice=slice, list=list, OrderedDict=RecOD)
+        x.materialize = materialize
         ctx.args = (x, tuple(subs))
         return ctx
 
-    def collides(self, ctx):
-        names, ks, e = ctx.st
-        new = [k.split(":")[1] for k in ks if ":" in k]
-        kept = [nm for nm, k in zip(names, ks) if k == "-" or k == "num"]
-        return any(n in kept for n in new)
+    @staticmethod
+    def same_pair(got, orig):
+        return got is orig or (isinstance(got, tuple) and len(got) == 2 and got[0] == "materialized" and got[1] is orig)
 
     def ensures(self, ctx, result):
         names, ks, e = ctx.st
-        tag = "[new name collides with a remaining input]" if self.collides(ctx) else ""
+        orig = dict(ctx.subs)
+        if isinstance(result, tuple) and result and result[0] == "advanced-indexing-path":
+            # the mapping handed on (the 2nd OrderedDict built) must hold every pair, every Variable / Slice materialized
+            m = ctx.ods[1] if len(ctx.ods) > 1 else None
+            ok = m is not None and list(m) == [k for k, v in ctx.subs] and all(isinstance(m[k], tuple) and m[k][1] is orig[k] if not isinstance(orig[k], NumberM) else m[k] is orig[k] for k in m)
+            return [("no_pair_lost_every_rename_materialized", ok)]
         ok = isinstance(result, tuple) and result[0] == "recursive-eager_subs" and isinstance(result[1], TensorM)
         if not ok:
-            return [("renames_then_recurses" + tag, False)]
+            return [("renames_then_recurses", False)]
         t, rest = result[1], result[2]
-        exp_names = [k.split(":")[1] if ":" in k else nm for nm, k in zip(names, ks)]
-        exp_sizes = [ctx.slices[nm].size if nm in ctx.slices else ctx.bs[nm] for nm in names]
-        cl = [("inputs_renamed_in_place" + tag, list(t.inputs) == exp_names and And(*[deep_eq(t.inputs[n].dtype, s) for n, s in zip(exp_names, exp_sizes)]))]
-        cl.append(("remaining_pairs_recursed_unchanged", [k for k, v in rest] == [nm for nm, k in zip(names, ks) if k == "num"]))
+        rest_keys = [k for k, v in rest]
+        inplace = [nm for nm, k in zip(names, ks) if ":" in k and nm not in rest_keys]
+        cl = [("no_pair_lost", rest_keys == [nm for nm, k in zip(names, ks) if k != "-" and nm not in inplace] and all(self.same_pair(v, orig[k]) and (isinstance(v, tuple) or isinstance(orig[k], NumberM)) for k, v in rest))]
+        exp_names = [k.split(":")[1] if nm in inplace else nm for nm, k in zip(names, ks)]
+        exp_sizes = [ctx.slices[nm].size if nm in ctx.slices and nm in inplace else ctx.bs[nm] for nm in names]
+        cl.append(("in_place_targets_distinct_from_every_other_input", len(set(exp_names)) == len(exp_names)))
+        cl.append(("inputs_renamed_in_place", list(t.inputs) == exp_names and And(*[deep_eq(t.inputs[n].dtype, s) for n, s in zip(exp_names, exp_sizes)])))
         shape = tuple(exp_sizes) + ctx.es
         if len(t.data.shape) == len(shape):
             idx = fresh_index(ctx.p, shape)
-            src = tuple(ctx.slices[nm].slice.start + ctx.slices[nm].slice.step * i if nm in ctx.slices else i for nm, i in zip(names, idx)) + tuple(idx[len(names):])
-            cl.append(("every_value_stays_with_its_renamed_input" + tag, Implies(in_range(idx, shape), t.data.get(idx) == ctx.x.data.get(src))))
+            src = tuple(ctx.slices[nm].slice.start + ctx.slices[nm].slice.step * i if nm in ctx.slices and nm in inplace else i for nm, i in zip(names, idx)) + tuple(idx[len(names):])
+            cl.append(("every_value_stays_with_its_renamed_input", Implies(in_range(idx, shape), t.data.get(idx) == ctx.x.data.get(src))))
         else:
-            cl.append(("every_value_stays_with_its_renamed_input" + tag, False))
+            cl.append(("every_value_stays_with_its_renamed_input", False))
         return cl
 
     def may_raise(self, ctx, etype):
-        # with a colliding name the constructor's size assertion may fire: allowed (declines)
-        return self.collides(ctx)
+        return False  # well-typed substitutions of this shape always go through (C04 after the repair)
 
     def allow_vacuous(self, st):
         return False
